@@ -7,7 +7,7 @@
  * SCEN 1  T0: get(id)            T1: get(id)                 first get on an empty slot, info with constructor
  * SCEN 2  T0: get(id)            T1: set(id, X)
  * SCEN 3  T0: get(id)            T1: test_and_set(id, X, NULL)
- * SCEN 4  T0: get(0) [slot set]  T1: get(1) on a later-registered info => resize of the array (wrlock, realloc)
+ * SCEN 4  T0: get(0) [slot set]  T1: set(1, X) on a later-registered info => resize of the array (wrlock, realloc)
  * SCEN 5  T0: set(0, Y)          T1: test_and_set(1, X, NULL) => resize
  *
  * Oracles (general, over every reached final state): a value returned by get is what the slot held at some
@@ -18,11 +18,28 @@
  */
 #include "vp_harness.h"
 #include "vp_objstub.h"
-#include "parsec/class/info.c"
-
 #ifndef SCEN
 #define SCEN 1
 #endif
+#include "parsec/class/parsec_rwlock.h"
+#if SCEN < 4
+/* Scenarios without a resize have no writer on the array's rwlock: the reader-side operations (fetch-and-add on
+ * rin / rout) commute with each other and never wait.  They are executed as ATOMIC steps here (real functions of
+ * parsec_rwlock.c reached through function pointers = indirect calls) instead of being interleaved instruction by
+ * instruction: with the ~25 extra yield points per lock/unlock pair (the dead resize branch included) one
+ * parsec_info_get has ~50 yield points and CBMC gives no verdict in 25 min even with ONE scheduling slot per thread
+ * (27 yield points: 4 s).  Reader/writer interleavings of the lock itself are C33's subject. */
+void (*vp_rdlock)(parsec_atomic_rwlock_t *) = parsec_atomic_rwlock_rdlock;
+void (*vp_rdunlock)(parsec_atomic_rwlock_t *) = parsec_atomic_rwlock_rdunlock;
+void (*vp_wrlock)(parsec_atomic_rwlock_t *) = parsec_atomic_rwlock_wrlock;
+void (*vp_wrunlock)(parsec_atomic_rwlock_t *) = parsec_atomic_rwlock_wrunlock;
+#define parsec_atomic_rwlock_rdlock(l)   vp_rdlock(l)
+#define parsec_atomic_rwlock_rdunlock(l) vp_rdunlock(l)
+#define parsec_atomic_rwlock_wrlock(l)   vp_wrlock(l)
+#define parsec_atomic_rwlock_wrunlock(l) vp_wrunlock(l)
+#endif
+#include "parsec/class/info.c"
+
 #define NOBJ 3
 static parsec_info_t nfo;
 static parsec_info_object_array_t oa;
@@ -97,23 +114,7 @@ void thread0(void) { g0 = parsec_info_get(&oa, id0); done0 = 1; }
 void thread1(void) { tas_ret = parsec_info_test_and_set(&oa, id0, &X, NULL); done1 = 1; }
 #elif SCEN == 4
 void thread0(void) { g0 = parsec_info_get(&oa, id0); done0 = 1; }
-void thread1(void) { g1 = parsec_info_get(&oa, id1); done1 = 1; }
-#elif SCEN == 7   /* development probe A: lock + slot read only */
-void thread0(void) { parsec_ioa_resize_and_rdlock(&oa, 0); g0 = oa.info_objects[0]; parsec_atomic_rwlock_rdunlock(&oa.rw_lock); done0 = 1; }
-void thread1(void) { g1 = oa.info_objects[0]; done1 = 1; }
-#elif SCEN == 9   /* probe C: test_and_set alone */
-void thread0(void) { g0 = parsec_info_test_and_set(&oa, 0, &X, NULL); done0 = 1; }
-void thread1(void) { g1 = oa.info_objects[0]; done1 = 1; }
-#elif SCEN == 10  /* probe D: A then B */
-void thread0(void) { parsec_ioa_resize_and_rdlock(&oa, 0); g0 = oa.info_objects[0]; parsec_atomic_rwlock_rdunlock(&oa.rw_lock);
-                     parsec_info_entry_t *ie = parsec_info_lookup_by_iid(oa.infos, 0); void *n = ie->constructor(oa.cons_obj, ie->cons_data); g0 = parsec_info_test_and_set(&oa, 0, n, NULL); done0 = 1; }
-void thread1(void) { g1 = oa.info_objects[0]; done1 = 1; }
-#elif SCEN == 8   /* development probe B: entry lookup + constructor + cas */
-void thread0(void) { parsec_info_entry_t *ie = parsec_info_lookup_by_iid(oa.infos, 0); void *n = ie->constructor(oa.cons_obj, ie->cons_data); if (parsec_atomic_cas_ptr(&oa.info_objects[0], NULL, n)) g0 = n; done0 = 1; }
-void thread1(void) { g1 = oa.info_objects[0]; done1 = 1; }
-#elif SCEN == 6   /* development probe */
-void thread0(void) { g0 = parsec_info_get(&oa, 0); done0 = 1; }
-void thread1(void) { g1 = oa.info_objects[0]; done1 = 1; }
+void thread1(void) { s_old = parsec_info_set(&oa, id1, &X); done1 = 1; }
 #elif SCEN == 5
 void thread0(void) { s_old = parsec_info_set(&oa, id0, &Y); done0 = 1; }
 void thread1(void) { tas_ret = parsec_info_test_and_set(&oa, id1, &X, NULL); done1 = 1; }
@@ -124,6 +125,17 @@ static int obj_destroyed(void *p) { return p == &objs[1] ? destroyed[1] : (p == 
 
 void check(void)
 {
+#if SCEN == 2
+    /* known finding C41-set-lost-update (FINDING.md): parsec_info_set reads the old value and stores the new one in two
+     * steps; a default published by a concurrent get between the two is overwritten although set reports NULL as the
+     * value it replaced: the constructed object is neither handed back nor destroyed */
+    int lost_update = (n_cons == 1 && s_old == NULL && g0 == &objs[1] && n_des == 0);
+#if defined(KF_EXCLUDE_C41_SET_LOST_UPDATE)
+    VASSUME(!lost_update);
+#elif defined(KF_ONLY_C41_SET_LOST_UPDATE)
+    VASSUME(lost_update);
+#endif
+#endif
     VASSERTM(done0 && done1, "both threads completed");
     VASSERTM(!bad_cb, "constructor/destructor called with the registered arguments, destructor only on constructed objects");
     VASSERTM(destroyed[1] <= 1 && destroyed[2] <= 1 && destroyed[3] <= 1, "no object destroyed twice");
@@ -162,12 +174,10 @@ void check(void)
     if (n_cons == 1 && slot0 == &X) VWITNESS("constructed default lost against test_and_set");
     if (slot0 == &objs[1]) VWITNESS("test_and_set lost against the constructed default");
     if (n_cons == 0) VWITNESS("test_and_set first, no construction");
-#elif SCEN >= 6
-    VWITNESS("probe");
 #elif SCEN == 4
     VASSERTM(oa.known_infos == 2, "array grown to the registered infos");
     VASSERTM(g0 == &V0 && slot0 == &V0, "the value of the other slot survives the concurrent resize and is what get returns");
-    VASSERTM(g1 == &objs[1] && oa.info_objects[id1] == &objs[1] && n_cons == 1 && n_des == 0, "the new slot starts empty: default constructed once and published");
+    VASSERTM(s_old == NULL && oa.info_objects[id1] == &X && n_cons == 0 && n_des == 0, "the new slot starts empty and takes the value set");
     VWITNESS("get racing with a resize");
 #elif SCEN == 5
     VASSERTM(oa.known_infos == 2, "array grown to the registered infos");
